@@ -414,7 +414,55 @@ fn low_level_config(rng: &mut ChaCha8Rng, key: &impl SigningKey, typ: SignatureT
     if with_issuer {
         hashed.push(Subpacket::regular(SubpacketData::IssuerFingerprint(key.fingerprint())).map_err(|e| e.to_string())?);
     }
+    // every few configurations carry further subpackets of the kinds the low-level interface lets a
+    // caller put in: each has its own writer / parser pair the signature must survive (regular
+    // expression with and without its NUL, notations of every size — a v6 area may exceed 65535
+    // octets —, URIs, user ids, preference lists, trust, flags)
+    static RICH: std::sync::atomic::AtomicUsize = std::sync::atomic::AtomicUsize::new(0);
+    let k = RICH.fetch_add(1, std::sync::atomic::Ordering::Relaxed);
+    let sp = |d: SubpacketData| Subpacket::regular(d).map_err(|e| e.to_string());
+    let notation = |n: usize, readable: bool| SubpacketData::Notation(pgp::packet::Notation { readable, name: "verif@example.org".into(), value: vec![b'v'; n].into() });
+    let v6 = key.version() == KeyVersion::V6;
+    let mut unhashed: Vec<Subpacket> = Vec::new();
+    match k % 9 {
+        1 => {
+            hashed.push(sp(SubpacketData::TrustSignature(1, 120))?);
+            hashed.push(sp(SubpacketData::RegularExpression(b"<[^>]+[@.]example\\.org>$\0".to_vec().into()))?);
+        }
+        2 => {
+            hashed.push(sp(SubpacketData::RegularExpression(b"no terminator".to_vec().into()))?);
+            hashed.push(sp(SubpacketData::ExportableCertification(false))?);
+        }
+        3 => {
+            hashed.push(sp(notation(300, true))?);
+            hashed.push(sp(SubpacketData::PolicyURI("https://example.org/policy".into()))?);
+            hashed.push(sp(SubpacketData::PreferredKeyServer("hkps://keys.example.org".into()))?);
+        }
+        // (a notation value has a two-octet length of its own: several of them make a large area)
+        4 if v6 && (k / 9) % 4 == 0 => {
+            for _ in 0..3 {
+                hashed.push(sp(notation(30_000, false))?);
+            }
+        }
+        5 if v6 && (k / 9) % 4 == 1 => {
+            for _ in 0..3 {
+                unhashed.push(sp(notation(25_000, true))?);
+            }
+        }
+        6 => {
+            hashed.push(sp(SubpacketData::SignersUserID("Signer <signer@example.org>".into()))?);
+            hashed.push(sp(SubpacketData::KeyServerPreferences(smallvec::smallvec![0x80]))?);
+            hashed.push(sp(SubpacketData::Revocable(false))?);
+            hashed.push(sp(SubpacketData::IsPrimary(true))?);
+            unhashed.push(sp(notation(5, false))?);
+        }
+        7 if (k / 9) % 4 == 2 => {
+            hashed.push(sp(notation(65_400, true))?);
+        }
+        _ => {}
+    }
     cfg.hashed_subpackets = hashed;
+    cfg.unhashed_subpackets = unhashed;
     Ok(cfg)
 }
 
